@@ -347,7 +347,17 @@ func mrun(args []string) error {
 			}
 			emit("mutated", t)
 		default:
-			emit("self-direct", []byte("pkg/Top again\n====\nMSG: pkg/Top\npkg/Top again\nTop rel\n"))
+			// cycles written with every reference form: qualified, package-relative, Header, mixed
+			cyc := []string{
+				"pkg/Top again\n====\nMSG: pkg/Top\npkg/Top again\nTop rel\n",
+				"Node next\n====\nMSG: pkg/Node\nNode next\n",
+				"Node[] children\n====\nMSG: pkg/Node\nint32 v\nNode[] children\n",
+				"Header h\n====\nMSG: std_msgs/Header\nuint32 seq\nHeader inner\n",
+				"A a\n====\nMSG: pkg/A\nB b\n====\nMSG: pkg/B\nA[3] back\n",
+				"other/X x\n====\nMSG: other/X\nY y\n====\nMSG: other/Y\nX x\n",
+				"A a\n====\nMSG: pkg/A\npkg/B b\n====\nMSG: pkg/B\nA back\n",
+			}
+			emit("cycle-forms", []byte(cyc[(i/6)%len(cyc)]))
 		}
 	}
 	cw.Flush()
